@@ -96,14 +96,7 @@ def all_units():
         ui = unit_info(t)
         if ui['id']:
             res[ui['id']] = ui
-    # includes: inherit owners of included templates
-    for u in res.values():
-        for inc in u['includes']:
-            ii = unit_info(os.path.join(CONTRACTS, inc))
-            for k, v in ii['fns'].items():
-                u['fns'].setdefault(k, v)
-            for k, v in ii['lemma_owners'].items():
-                u['lemma_owners'].setdefault(k, v)
+    # included templates are verified (and owned) in their own unit; an including unit re-checks them but does not own them
     return res
 
 
